@@ -309,8 +309,15 @@ func buildScenario(r *vs.Rand, cfg scfg) *scenario {
 	if r.Chance(40) {
 		spec["config"] = r.Pick([]string{"c1", "c2"})
 	}
-	if r.Chance(20) {
-		spec["extra"] = vs.M{"a": int64(r.Intn(3))}
+	if r.Chance(25) {
+		ex := vs.M{"a": int64(r.Intn(3))}
+		if r.Chance(50) {
+			// name-keyed lists whose items share two conventional merge keys: the same volume mounted at two paths
+			// (values repeat under "name", not under "mountPath"), and ports that are unique under both keys
+			ex["mounts"] = []interface{}{vs.M{"name": "data", "mountPath": "/a"}, vs.M{"name": "data", "mountPath": "/b"}, vs.M{"name": "cfg", "mountPath": "/c"}}
+			ex["ports"] = []interface{}{vs.M{"name": "http", "port": int64(80)}, vs.M{"name": "https", "port": int64(443)}}
+		}
+		spec["extra"] = ex
 	}
 	switch r.Intn(18) {
 	case 0:
@@ -506,8 +513,17 @@ func buildScenario(r *vs.Rand, cfg scfg) *scenario {
 					la := mk(name, childLabels, nil, "v0")
 					delete(la["metadata"].(vs.M), "namespace")
 					w.sim.Put(c.group(), c.Resource, withLA(mk(name, lbl, ownerRef(stored, true), "v0"), la))
-				case 4: // matching orphan
-					w.sim.Put(c.group(), c.Resource, mk(name, lbl, nil, image))
+				case 4: // matching orphan; sometimes it already lists the parent as a plain (non-controller) owner, as tooling that only
+					// wants garbage collection writes it
+					if r.Chance(35) {
+						plain := ownerRef(stored, false)
+						if r.Chance(50) {
+							delete(plain, "controller")
+						}
+						w.sim.Put(c.group(), c.Resource, mk(name, lbl, plain, image))
+					} else {
+						w.sim.Put(c.group(), c.Resource, mk(name, lbl, nil, image))
+					}
 				case 5: // owned by the other parent (look-alike)
 					w.sim.Put(c.group(), c.Resource, mk(name, lbl, ownerRef(otherStored, true), image))
 				case 6: // owned but labels no longer match
